@@ -16,6 +16,7 @@ CONSTANTS
   Res = {"p1", "p2"}
   TopRes = {"p1", "p2"}
   Roa <- MCRoa1
+  AspaDefs <- NoAspa
   ParentOf <- Chain
   Ops = {"res", "suspend", "remove", "delete"}
 CONSTANTS
